@@ -237,4 +237,58 @@ theorem issued_never_reused : ∀ (ops : List Op) (s : State), (issuedAll s ops)
         omega
       · simp at ha
 
+theorem run_cons (s : State) (op : Op) (r : List Op) : run s (op :: r) = run (step s op).1 r := rfl
+
+theorem run_next_mono : ∀ (ops : List Op) (s : State), s.next ≤ (run s ops).next
+  | [], _ => Nat.le_refl _
+  | op :: r, s => by
+    rw [run_cons]
+    exact Nat.le_trans (step_grow s op).1 (run_next_mono r _)
+
+/-- every handle issued along a history - save+reload steps included, whose generator value is the `$HANDSEED` read from
+    the file - is below the handle generator of the final state: the generator, and with it the `$HANDSEED` of every later
+    file, stays above ALL handles ever issued, those of deleted entities included -/
+theorem issuedAll_lt_next : ∀ (ops : List Op) (s : State), ∀ h ∈ issuedAll s ops, h < (run s ops).next
+  | [], _, h, hh => by simp [issuedAll] at hh
+  | op :: r, s, h, hh => by
+    rw [run_cons]
+    simp only [issuedAll, List.mem_append] at hh
+    rcases hh with hh | hh
+    · split at hh
+      · rename_i hok
+        have h1 := ((issued_window s op hok).2 h hh).2
+        have h2 := run_next_mono r (step s op).1
+        omega
+      · simp at hh
+    · exact issuedAll_lt_next r _ h hh
+
+/-- a save+reload step is accepted only with a `$HANDSEED` at or above the generator (the model takes the value the loader
+    read from the file): an accepted reload never lowers the generator -/
+theorem reload_seed_ge (s : State) (seed : Nat) (hok : (step s (.reload seed)).2 = .ok) :
+    s.next ≤ seed ∧ (step s (.reload seed)).1.next = seed := by
+  simp only [step] at hok ⊢
+  split
+  · rename_i hle; exact ⟨by simpa using hle, rfl⟩
+  · rename_i hle; simp [hle] at hok
+
+/-- a request addressed to a layout that does not list the (live) entity is rejected -/
+theorem unlinkCore_wrong (s : State) (k e : Nat) (ha : isAlive s e = true)
+    (hn : ((spaceOf s k).getD []).contains e = false) : unlinkCore s k e = none := by
+  unfold unlinkCore
+  simp only [ha, Bool.not_true, Bool.false_eq_true, ↓reduceIte]
+  cases hsp : spaceOf s k with
+  | none => rfl
+  | some sp =>
+    simp only [hsp, Option.getD_some] at hn
+    simp only [hn, Bool.false_eq_true, ↓reduceIte]
+
+/-- `layout.unlink_entity / move_to_layout / delete_entity` sent to a layout (or block) that does not contain the live
+    entity: ValueError / DXFValueError / ValueError, and the document is unchanged -/
+theorem wrong_layout_rejected (s : State) (k e k2 : Nat) (ha : isAlive s e = true)
+    (hn : ((spaceOf s k).getD []).contains e = false) :
+    step s (.unlink k e) = (s, .err .valueError) ∧ step s (.move k e k2) = (s, .err .dxfValueError) ∧
+    step s (.del k e) = (s, .err .valueError) := by
+  have h := unlinkCore_wrong s k e ha hn
+  simp [step, h, ha]
+
 end EzdxfVerif.Doc
